@@ -366,6 +366,7 @@ macro_rules! c04_resized {
             bounds: "bit vector of LEN0 bits (first and last word symbolic, filler 0x84211248F00F3C5A) truncated by resize(NEWLEN,false) (args: constructor, words, LEN0, NEWLEN); every 0 <= p <= NEWLEN",
             oracle: "the sequence is the first NEWLEN bits: BitVector's own len/count_ones/rank1 and the structure's len/count_ones/rank1/rank0/get match the popcount-prefix loop",
             body: {
+                crate::common::stubs::native_tier(crate::c04_rankselect::cpu_none);
                 let (bv, s) = bv_after_resize::<$nw>($len0, $newlen);
                 assert!(bv.len() == s.len && bv.count_ones() == s.ones(), "BitVector after resize");
                 let rs = $ctor(bv);
@@ -475,6 +476,7 @@ macro_rules! c04_rs {
             bounds: "bit string of the concrete length L of the instance (args: constructor, check, words NW, L, index S0 and bit mask M0 / index S1 and mask M1 of the symbolic bits (index >= NW or mask NONE = none), concrete filler of all other bits); check_rank/check_il_perf: every 0 <= p <= L; select checks: every k in usize; get_cpu_features/CPUID report no optional feature",
             oracle: "check_rank: rank1(p) == popcount-prefix loop, rank0(p) == p - rank1(p), get(p) == bit p (None at len), len/count_ones/count_zeros exact. check_select1: select1(k) is Ok(r) iff k < ones, and then r < L, bit r set, exactly k ones before r, rank1(r) == k. check_select0 likewise for zero bits. check_il_perf*: every accelerated/bulk entry point returns the same as the definition",
             body: {
+                crate::common::stubs::native_tier(crate::c04_rankselect::cpu_none);
                 let (raw, s) = Seq::<$nw>::make($len, $s0, $m0, $s1, $m1, $fill);
                 let bv = s.bitvector(raw);
                 let rs = $ctor(bv);
@@ -844,7 +846,7 @@ macro_rules! c04_bulk {
             targets: "succinct::rank_select::simd::{bulk_rank1_simd, bulk_popcount_simd, bulk_select1_simd} and SimdCapabilities::{get, detect, determine_optimization_strategy}; tier = get_cpu_features replacement of the instance: cpu_none -> tier 0 bulk_*_scalar; cpu_bmi2 (POPCNT+BMI2, no AVX2) -> tier 3: bulk_rank1_popcnt / bulk_popcount_popcnt / bulk_select1_bmi2 with the SDM model of PDEP",
             bounds: "raw bit data of NW words (generic arg), first and last word symbolic, filler 0x84211248F00F3C5A; bulk_rank_interior: every p < 64*NW; bulk_rank_upto_len: every p <= 64*NW; bulk_select_case: every k",
             oracle: "rank = popcount-prefix loop; select(k) is Ok([r]) iff k < ones with bit r set and exactly k ones before r",
-            body: { $f() }
+            body: { crate::common::stubs::native_tier($cpu); $f() }
         }
     };
 }
@@ -873,6 +875,7 @@ macro_rules! c04_adaptive {
             bounds: "one-word bit string of concrete length L with the symbolic bits of mask M0 (args: check, L, M0), filler zero; every p <= L / every k; scalar tier",
             oracle: "same definition-level checks as for the plain structures (the data profile must not change any answer)",
             body: {
+                crate::common::stubs::native_tier(crate::c04_rankselect::cpu_none);
                 let (raw, s) = Seq::<1>::make($len, 0, $m0, 9, NONE, 0);
                 let bv = s.bitvector(raw);
                 let rs = unwrap_rs(AdaptiveRankSelect::new(bv));
